@@ -6,7 +6,9 @@ import re
 
 TAG_DATA = re.compile(r"d(\d+)c(\d+)")
 TAG_HDR = re.compile(r"H(\d+)c(\d+)")
-TAG_COL = re.compile(r"\s*[Nn](\d+)\s*")      # (column names may be decorated with blanks / other case)
+# column names: the tag, possibly in lower case, possibly followed by a decoration that starts with a non-word
+# character ("N3 (%)", "N1, n", "N2 \u2126")
+TAG_COL = re.compile(r"\s*[Nn](\d+)(\W.*)?", re.S)
 TAG_GRP = re.compile(r"G(\d+)v(\d+)")
 TAG_SB = re.compile(r"SB(\d+)x(\d+)")
 DIVIDER = "-----"
@@ -152,6 +154,10 @@ def row_role(texts: list[str]) -> str | None:
         if t.startswith("SR"):
             return "source_row"
     if all(TAG_HDR.fullmatch(t) for t in texts):
+        return "header"
+    if len(texts) >= 2 and all(t.strip() == "" for t in texts):
+        # a row of several cells without any text can only be a header row whose labels are blank (data rows carry
+        # their key tag, group headings and footnote / source rows have one cell)
         return "header"
     if any(TAG_DATA.fullmatch(t) for t in texts):
         return "data"
